@@ -222,3 +222,19 @@ EVP_REQ()
 __CPROVER_assigns(verif_exc)
 ENSURES(kernel_is_the_scalar_operation_with_infinity, __CPROVER_return_value == 1)
 ;
+int lemma_evplus_div_shortcuts(struct forest *f1, struct forest *f2, const struct edge_value *av, node_handle ap, const struct edge_value *bv, node_handle bp)
+EVP_REQ()
+__CPROVER_requires(__CPROVER_is_fresh(f1, sizeof(*f1)) && __CPROVER_is_fresh(f2, sizeof(*f2)))
+__CPROVER_assigns(verif_exc)
+ENSURES(first_argument_shortcut_is_sound, (__CPROVER_return_value & 1) != 0)
+ENSURES(second_argument_shortcut_is_sound, (__CPROVER_return_value & 2) != 0)
+ENSURES(equal_arguments_shortcut_is_sound, (__CPROVER_return_value & 4) != 0)
+;
+int lemma_evplus_mod_shortcuts(struct forest *f1, struct forest *f2, const struct edge_value *av, node_handle ap, const struct edge_value *bv, node_handle bp)
+EVP_REQ()
+__CPROVER_requires(__CPROVER_is_fresh(f1, sizeof(*f1)) && __CPROVER_is_fresh(f2, sizeof(*f2)))
+__CPROVER_assigns(verif_exc)
+ENSURES(first_argument_shortcut_is_sound, (__CPROVER_return_value & 1) != 0)
+ENSURES(second_argument_shortcut_is_sound, (__CPROVER_return_value & 2) != 0)
+ENSURES(equal_arguments_shortcut_is_sound, (__CPROVER_return_value & 4) != 0)
+;
